@@ -428,9 +428,25 @@ func (fx *Fx) evalCond(st *State, e ast.Expr) []condBranch {
 		}
 	}
 	c := fx.boolTerm(st, e, false)
+	// cheap pruning of branches that contradict a fact already on the path (repeated tests of the same condition)
+	nc := not(c)
+	hasC, hasNC := c == "true", c == "false"
+	for _, a := range st.pc {
+		if a == c {
+			hasC = true
+		} else if a == nc {
+			hasNC = true
+		}
+	}
+	if hasC && !hasNC {
+		return []condBranch{{st: st, truth: true}}
+	}
+	if hasNC && !hasC {
+		return []condBranch{{st: st, truth: false}}
+	}
 	t := st.clone()
 	t.assume(c)
-	st.assume(not(c))
+	st.assume(nc)
 	return []condBranch{{st: t, truth: true}, {st: st, truth: false}}
 }
 
